@@ -1,11 +1,17 @@
 (* C05 -- every file written is a well-formed EMD 1.0 file.  Statements only.
-   Proved: a validator wf_emd (the Coq twin of the harness's h5py-only validator) accepts every file a fresh save of a
-   whole tree produces and every file an append (C09's union) leaves; plus the individual layout facts (valid tags on
-   every node group, tagged bundles of tagged typed items, the header passing the package detector, the bundle
-   created by the append path tagged, no scratch group after a replace: C09/C18).  PARTIAL: emdpath appends
-   and lists holding rooted nodes are validated on real files by the harness after every successful save of
-   every scenario, not by a theorem. *)
-From Emd Require Import Base.Prelude Model.H5 Model.Emd Generated.Tables Proofs.PTree Proofs.P05 Proofs.P20 Proofs.PRead Proofs.PUnion Proofs.PUnionAO Proofs.PWf Proofs.PMulti Proofs.PAfter.
+   Proved: a validator wf_emd (the Coq twin of the harness's h5py-only validator) accepts
+     - every file a fresh save produces (whole tree or any partial selection),
+     - every file an append (C09's union) or an append-over (union + replace) of a whole tree leaves,
+     - every file an append aimed inside a tree leaves: an inner node; the whole tree at an emdpath; an inner node with an
+       emdpath to itself or its parent; a foreign tree placed under an emdpath; append-over of an inner node and of the whole tree at an emdpath (closed
+       forms of Proofs/PSubst.v),
+     - every file of several trees, and every list save (lists mixing roots, unrooted items and rooted nodes of several
+       roots) into a fresh file or appended to a file of other trees;
+   plus the individual layout facts (valid tags on every node group, tagged bundles of tagged typed items, the header
+   passing the package detector, the bundle created by the append path tagged, no scratch group after a replace: C09/C18).
+   PARTIAL: foreign inner nodes under an emdpath, tree = False / None variants of append-over inside a tree, and list saves naming a root the file
+   already has are validated on real files by the harness after every successful save of every scenario, not by a theorem. *)
+From Emd Require Import Base.Prelude Model.H5 Model.Emd Generated.Tables Proofs.PTree Proofs.P05 Proofs.P20 Proofs.PRead Proofs.PUnion Proofs.PUnionAO Proofs.PWf Proofs.PMulti Proofs.PAfter Proofs.PMixed Proofs.PTarget Proofs.PSubst.
 From Emd Require Import Model.EmdList.
 From Emd Require Generated.Version.
 
@@ -106,6 +112,79 @@ Theorem C05_the_file_after_an_appendover_passes_the_validator :
 Proof. exact wf_after_appendover. Qed.
 Print Assumptions C05_the_file_after_an_appendover_passes_the_validator.
 
+(* appends aimed inside an existing tree: an inner node saved in append mode, and the same given an emdpath (the whole tree
+   at 'root/p'; an inner node with an emdpath naming itself or its parent).  The file is the encoding of the tree with the
+   node at p replaced by the union (Proofs/PSubst.v), hence valid. *)
+Theorem C05_the_file_after_an_inner_node_append_passes_the_validator :
+  forall c0 m root p km d2 md tr,
+    In md appendmode -> tr <> Some false ->
+    rcls m = CRoot -> rname root = rname m -> rmds root = [] -> ok_tree m -> p <> [] ->
+    rwalk m p = Some km -> rwalk root p = Some d2 -> compat km d2 ->
+    plain_tree m -> plain_tree d2 ->
+    exists f, append_existing root p (WA md tr None) md (whole_file c0 m) = Ok f /\ wf_emd c0 f = true.
+Proof. exact wf_after_inner_node_append. Qed.
+Print Assumptions C05_the_file_after_an_inner_node_append_passes_the_validator.
+
+Theorem C05_the_file_after_an_append_at_an_emdpath_passes_the_validator :
+  forall c0 m root p km d2 md tr,
+    In md appendmode -> tr <> Some false ->
+    rcls m = CRoot -> rname root = rname m -> rmds root = [] -> ok_tree m -> p <> [] ->
+    rwalk m p = Some km -> rwalk root p = Some d2 -> compat km d2 ->
+    plain_tree m -> plain_tree d2 ->
+    Forall (fun s => s <> "" /\ no_slash s = true) (rname m :: p) ->
+    exists f, append_existing root [] (WA md tr (Some (join_slash (rname m :: p)))) md (whole_file c0 m) = Ok f /\ wf_emd c0 f = true.
+Proof. exact wf_after_an_append_at_an_emdpath. Qed.
+Print Assumptions C05_the_file_after_an_append_at_an_emdpath_passes_the_validator.
+
+Theorem C05_the_file_after_an_inner_node_append_with_an_emdpath_passes_the_validator :
+  forall c0 m root p km d2 md tr ep_path,
+    In md appendmode -> tr <> Some false ->
+    rcls m = CRoot -> rname root = rname m -> rmds root = [] -> ok_tree m -> p <> [] ->
+    rwalk m p = Some km -> rwalk root p = Some d2 -> compat km d2 ->
+    plain_tree m -> plain_tree d2 ->
+    Forall (fun s => s <> "" /\ no_slash s = true) (rname m :: p) ->
+    (ep_path = p \/ ep_path = removelast p) ->
+    exists f, append_existing root p (WA md tr (Some (join_slash (rname m :: ep_path)))) md (whole_file c0 m) = Ok f /\ wf_emd c0 f = true.
+Proof. exact wf_after_an_inner_node_append_with_an_emdpath. Qed.
+Print Assumptions C05_the_file_after_an_inner_node_append_with_an_emdpath_passes_the_validator.
+
+(* a foreign tree (root name the file lacks) placed whole under the emdpath target 'root/p' *)
+Theorem C05_the_file_after_a_foreign_tree_is_placed_under_an_emdpath_passes_the_validator :
+  forall c0 m root p kt md tr,
+    rcls m = CRoot -> rname root <> rname m -> ok_tree m -> rwalk m p = Some kt -> tr <> Some false -> ok_tree root ->
+    (forall k, In k (rkids root) -> ~ In (rname k) (keys (olinks (enc kt)))) ->
+    Forall (fun s => s <> "" /\ no_slash s = true) (rname m :: p) ->
+    plain_tree m -> plain_tree root ->
+    exists f, append_existing root [] (WA md tr (Some (join_slash (rname m :: p)))) md (whole_file c0 m) = Ok f /\ wf_emd c0 f = true.
+Proof. exact wf_after_a_foreign_tree_under_an_emdpath. Qed.
+Print Assumptions C05_the_file_after_a_foreign_tree_is_placed_under_an_emdpath_passes_the_validator.
+
+(* append-over of an inner node (replaced in its parent, file-only children kept), and of the whole tree at an emdpath *)
+Theorem C05_the_file_after_an_inner_node_appendover_passes_the_validator :
+  forall c0 m root q x pk km data md,
+    In md appendovermode ->
+    rcls m = CRoot -> rname root = rname m -> rmds root = [] -> ok_tree m ->
+    rwalk m q = Some pk -> rwalk m (q ++ [x]) = Some km ->
+    rwalk root (q ++ [x]) = Some data -> rname data = x ->
+    compat_ao (RN CNode "" 0%Z 0 [] [data]) (shallow_links pk) (rkids pk) ->
+    plain_tree m -> plain (rname data) = true -> rname data <> "metadatabundle" -> rcls data <> CRoot -> plain_tree data ->
+    exists f, append_existing root (q ++ [x]) (WA md (Some true) None) md (whole_file c0 m) = Ok f /\ wf_emd c0 f = true.
+Proof. exact wf_after_inner_node_appendover. Qed.
+Print Assumptions C05_the_file_after_an_inner_node_appendover_passes_the_validator.
+
+Theorem C05_the_file_after_an_appendover_at_an_emdpath_passes_the_validator :
+  forall c0 m root q x pk km data md,
+    In md appendovermode ->
+    rcls m = CRoot -> rname root = rname m -> rmds root = [] -> ok_tree m ->
+    rwalk m q = Some pk -> rwalk m (q ++ [x]) = Some km ->
+    rwalk root (q ++ [x]) = Some data -> rname data = x ->
+    compat_ao (RN CNode "" 0%Z 0 [] [data]) (shallow_links pk) (rkids pk) ->
+    plain_tree m -> plain (rname data) = true -> rname data <> "metadatabundle" -> rcls data <> CRoot -> plain_tree data ->
+    Forall (fun s => s <> "" /\ no_slash s = true) (rname m :: q ++ [x]) ->
+    exists f, append_existing root [] (WA md (Some true) (Some (join_slash (rname m :: q ++ [x])))) md (whole_file c0 m) = Ok f /\ wf_emd c0 f = true.
+Proof. exact wf_after_an_appendover_at_an_emdpath. Qed.
+Print Assumptions C05_the_file_after_an_appendover_at_an_emdpath_passes_the_validator.
+
 (* ... files holding several trees (successive saves under new root names: C10) and list saves of roots, unrooted
    nodes, arrays and dicts into a fresh file *)
 Theorem C05_a_file_of_several_trees_passes_the_validator :
@@ -121,6 +200,36 @@ Theorem C05_a_list_save_passes_the_validator :
     exists f, write_list c Absent tops items (WA md tr None) = (Ok tt, H5 f) /\ wf_emd c f = true.
 Proof. exact wf_list_save. Qed.
 Print Assumptions C05_a_list_save_passes_the_validator.
+
+(* a list mixing roots, unrooted nodes, arrays, dicts and rooted nodes of several roots (see C10) *)
+Theorem C05_a_mixed_list_save_passes_the_validator :
+  forall c tops items md tr,
+    nodup_nat (list_unrooted_idx tops items) = true -> list_conflict tops items = false -> In md allmodes ->
+    let base := (list_saved tops items ++ list_given tops items) ++ list_copies tops items in
+    base <> [] -> Forall (fun t => rcls t = CRoot /\ plain_tree t) base -> Forall ok_tree base -> NoDup (map rname base) ->
+    Forall (fun it => let r := nth (fst it) tops dummy in
+              rcls r = CRoot /\ rname r <> "" /\ no_slash (rname r) = true /\ NoDup (keys (rmds r)) /\
+              exists x data, snd it = [x] /\ rwalk r [x] = Some data /\ rname data = x /\ x <> "metadatabundle" /\
+                             plain x = true /\ rcls data <> CRoot) (list_rooted items) ->
+    NoDup (map (fun it => (rname (nth (fst it) tops dummy), snd it)) (list_rooted items)) ->
+    exists f, write_list c Absent tops items (WA md tr None) = (Ok tt, H5 f) /\ wf_emd c f = true.
+Proof. exact wf_mixed_list_save. Qed.
+Print Assumptions C05_a_mixed_list_save_passes_the_validator.
+
+Theorem C05_a_mixed_list_appended_to_an_existing_file_passes_the_validator :
+  forall c tops items md tr ts,
+    In md (appendmode ++ appendovermode) -> ts <> [] -> Forall (fun t => rcls t = CRoot /\ plain_tree t) ts ->
+    nodup_nat (list_unrooted_idx tops items) = true -> list_conflict tops items = false ->
+    let base := (list_saved tops items ++ list_given tops items) ++ list_copies tops items in
+    Forall (fun t => rcls t = CRoot /\ plain_tree t) base -> Forall ok_tree base -> NoDup (map rname (ts ++ base)) ->
+    Forall (fun it => let r := nth (fst it) tops dummy in
+              rcls r = CRoot /\ rname r <> "" /\ no_slash (rname r) = true /\ NoDup (keys (rmds r)) /\
+              exists x data, snd it = [x] /\ rwalk r [x] = Some data /\ rname data = x /\ x <> "metadatabundle" /\
+                             plain x = true /\ rcls data <> CRoot) (list_rooted items) ->
+    NoDup (map (fun it => (rname (nth (fst it) tops dummy), snd it)) (list_rooted items)) ->
+    exists f, write_list c (H5 (forest_file c ts)) tops items (WA md tr None) = (Ok tt, H5 f) /\ wf_emd c f = true.
+Proof. exact wf_mixed_list_into_an_existing_file. Qed.
+Print Assumptions C05_a_mixed_list_appended_to_an_existing_file_passes_the_validator.
 
 (* the validator is not vacuous: it rejects an untagged child group, a missing calibration dataset and a scratch group *)
 Example C05_validator_rejects :
